@@ -46,6 +46,7 @@ class Knobs:
         self.p_hooked = 0.0
         self.p_placeholder = 0.0
         self.p_regex_unsup = 0.0
+        self.p_regex_flags = 0.0
 
 
 # ------------------------------------------------------------------ generation (witness-first)
@@ -134,7 +135,8 @@ def _gen_float(r, k, depth):
     prec = None
     if r.random() < k.p_constraint * 0.7:
         prec = r.choice((1, 1, 2, 2, 3, 4, 6, 9, 12, 15))
-        w = round(w, prec)
+        if r.random() < 0.8:
+            w = round(w, prec)          # mostly a grid point; sometimes a value with more digits than the precision
         if w == 0:
             w = 0.0
     order = []
@@ -145,16 +147,27 @@ def _gen_float(r, k, depth):
     mag = max(abs(w), 1e-3)
     deltas = (0.0, 0.0, 0.05, 0.3, 0.45, 1.0, 7.25, mag * 0.1, mag * 3 if mag < 1e300 else mag * 0.5,
               1e19 if r.random() < k.p_beyond else 2.0, 1e308 if r.random() < k.p_beyond else 0.5)
+    inf = float("inf")
     if r.random() < k.p_constraint:
         lo = float(w - r.choice(deltas))
-        if lo == lo and abs(lo) != float("inf"):          # bounds stay finite
+        if lo != lo or abs(lo) == inf:
+            lo = -inf if r.random() < 0.5 else None       # overflowed: an infinite bound, or none
+        if lo is not None:
             s["min"] = enc(lo)
             rest.append("min")
+    elif r.random() < k.p_edge * 0.3:
+        s["min"] = enc(-inf)                              # a legal, if idle, declaration
+        rest.append("min")
     if r.random() < k.p_constraint:
         hi = float(w + r.choice(deltas))
-        if hi == hi and abs(hi) != float("inf"):
+        if hi != hi or abs(hi) == inf:
+            hi = inf if r.random() < 0.5 else None
+        if hi is not None:
             s["max"] = enc(hi)
             rest.append("max")
+    elif r.random() < k.p_edge * 0.3:
+        s["max"] = enc(inf)
+        rest.append("max")
     if prec is not None:
         s["precision"] = prec
         rest.append("precision")
@@ -164,7 +177,10 @@ def _gen_float(r, k, depth):
 
 
 ALPHABETS = ("ab", "abc", string.ascii_lowercase, string.digits, "01", " ", "xyz_-", string.ascii_letters + string.digits + " -_")
-UNI_ALPHABETS = ("äöüß", "日本語", "abéł", "\U0001F600\U0001F601a", "\n\t a")
+UNI_ALPHABETS = ("äöüß", "日本語", "abéł", "\U0001F600\U0001F601a", "\n\t a", "e\u0301a\u030a", "\u212b\u2126K",
+                 "".join(chr(c) for c in range(0x391, 0x3ea) if c != 0x3a2),            # Greek, 88 letters
+                 "".join(chr(c) for c in range(0x410, 0x470)),                          # Cyrillic, 96 letters
+                 string.printable[:95])
 
 
 def _gen_str(r, k, depth):
@@ -253,6 +269,15 @@ def _gen_str_regex(r, k):
             continue
         if not G.member_safe(ast):
             continue      # d42's own validator runs re.search on members: only backtracking-safe shapes (C09 owns the rest)
+        if k.p_regex_flags and r.random() < k.p_regex_flags:
+            # an inline flag is outside C09's construct lists; only where just reproducibility / purity
+            # of the result matters (C07, C17), never where the match itself is judged
+            pat = "(?i)" + pat if r.random() < 0.6 else "(?i:" + pat + ")"
+            try:
+                re.compile(pat)
+            except Exception:
+                continue
+            return {"t": "str", "regex": {"pattern": pat, "ast": ast, "flags": "i"}, "order": ["regex"]}, "x"
         if G.has_unsupported(ast):
             # only where a raising fake() is part of the history under test (C07, C17)
             return {"t": "str", "regex": {"pattern": pat, "ast": ast}, "order": ["regex"]}, "x"
@@ -287,7 +312,17 @@ def _gen_uuid4(r, k, depth):
     return s, w
 
 
+def equal_instants():
+    from datetime import timezone
+    base = datetime(2021, 3, 4, 12, 0, 0, tzinfo=timezone.utc)
+    return [base, base.astimezone(timezone(timedelta(hours=3))), base.astimezone(timezone(timedelta(hours=-8))),
+            datetime(2021, 11, 7, 1, 30, fold=0), datetime(2021, 11, 7, 1, 30, fold=1)]
+
+
 def _gen_datetime(r, k, depth):
+    if r.random() < 0.08:
+        w = r.choice(equal_instants())
+        return {"t": "datetime", "value": enc(w)}, w
     w = datetime(r.randint(1971, 2090), r.randint(1, 12), r.randint(1, 28), r.randint(0, 23),
                  r.randint(0, 59), r.randint(0, 59), r.choice((0, 999999, r.randrange(10 ** 6))))
     if r.random() < 0.1:
@@ -313,7 +348,8 @@ V1_UUID = UUID("c232ab00-9414-11ec-b3c8-9f68deced846")
 
 def _filler(r):
     return r.choice((None, 0, 1, "f", [], {}, 2.5, True, [1], {"k": 1}, 1.0, 0.0, -0.0, False, b"b",
-                     NIL_UUID, V1_UUID, UUID(int=5, version=4), date(2020, 2, 29), datetime(2020, 2, 29, 1, 2, 3)))
+                     NIL_UUID, V1_UUID, UUID(int=5, version=4), date(2020, 2, 29), datetime(2020, 2, 29, 1, 2, 3),
+                     "e\u0301", "\u212b", {"ok?": None}) + tuple(equal_instants()[:3]))
 
 
 def _len_for_typed(r, k, n):
@@ -394,7 +430,8 @@ def _gen_list(r, k, depth):
     return s, w
 
 
-KEY_POOL = ("id", "name", "a", "b", "c", "key", "value", "items", "x y", "", "d", "e", "f", "g", "created_at", "Z")
+KEY_POOL = ("id", "name", "a", "b", "c", "key", "value", "items", "x y", "", "d", "e", "f", "g", "created_at", "Z",
+            "ok?", "?", "e\u0301")
 
 
 def _gen_dict(r, k, depth, include_all=False):
